@@ -237,14 +237,19 @@ func HarnessC03ForSym() {
 	e := int64(vInt("e", -2, 3))
 	k := int64(vInt("k", -2, 3))
 	up := vChoice("dir", 2) == 0
-	ctrl := vChoice("ctrl", 3)
+	ctrl := vChoice("ctrl", 5)
 	hasElse := vChoice("else", 2) == 1
 	head := "@for(i = s; i < e; i++)"
 	if !up {
 		head = "@for(i = s; i > e; i--)"
 	}
-	c := []string{"", "@breakIf(i == k)", "@continueIf(i == k)"}[ctrl]
-	src := head + "[x" + c + "]"
+	c := []string{"", "@breakIf(i == k)", "@continueIf(i == k)", "@breakIf(i != k)", "@continueIf(i != k)"}[ctrl]
+	early := vChoice("ctrl-first", 2) == 1 // the directive comes before anything the pass prints
+	body, head1 := "[x"+c+"]", "[x"
+	if early {
+		body, head1 = c+"[x]", ""
+	}
+	src := head + body
 	if hasElse {
 		src += "@else<E>"
 	}
@@ -253,12 +258,17 @@ func HarnessC03ForSym() {
 	ran := false
 	for i := s; (up && i < e) || (!up && i > e); {
 		ran = true
-		want += "[x"
-		if ctrl == 1 && i == k {
+		want += head1
+		fire := (ctrl == 1 || ctrl == 2) && i == k || (ctrl == 3 || ctrl == 4) && i != k
+		if fire && (ctrl == 1 || ctrl == 3) {
 			break
 		}
-		if !(ctrl == 2 && i == k) {
-			want += "]"
+		if !fire {
+			if early {
+				want += "[x]"
+			} else {
+				want += "]"
+			}
 		}
 		if up {
 			i++
@@ -273,4 +283,41 @@ func HarnessC03ForSym() {
 	vCover("rendered")
 	vAssert(err == nil, "for-renders-without-error")
 	vAssert(out == want, "for-runs-while-condition-holds-and-else-when-false-at-entry")
+}
+
+// HarnessC03Empty: loops whose body and/or @else body is empty.
+func HarnessC03Empty() {
+	n := vChoice("len", 3)
+	body := []string{"", "<B>"}[vChoice("body", 2)]
+	hasElse := vChoice("else", 2) == 1
+	elseBody := []string{"", "<E>"}[vChoice("else-body", 2)]
+	var head string
+	data := map[string]any{"n": n}
+	if vChoice("loop", 2) == 0 {
+		xs := make([]any, n)
+		for i := range xs {
+			xs[i] = i
+		}
+		data["xs"] = xs
+		head = "@each(v in xs)"
+	} else {
+		head = "@for(i = 0; i < n; i++)"
+	}
+	src := "P:" + head + body
+	if hasElse {
+		src += "@else" + elseBody
+	}
+	src += "@end:S"
+	want := "P:"
+	for i := 0; i < n; i++ {
+		want += body
+	}
+	if n == 0 && hasElse {
+		want += elseBody
+	}
+	want += ":S"
+	out, err := EvaluateString(src, data)
+	vCover("rendered")
+	vAssert(err == nil, "loop-with-empty-bodies-renders-without-error")
+	vAssert(out == want, "body-once-per-pass-else-only-when-no-pass")
 }
